@@ -359,8 +359,8 @@ def protEntry (e : GoVal × GoVal) : Option Bool :=
     (match e.2 with
      | .alg _ => some true
      | _ => if canInt e.2 then some true else none)
-  | some (.int _ 259) => if canUint e.2 || canTstr e.2 then some false else none
-  | some (.int _ 260) => if canTstr e.2 then some false else none
+  | some (.int _ 259) => if canUint e.2 || canText e.2 then some false else none
+  | some (.int _ 260) => if canText e.2 then some false else none
   | some _ => some false
 
 
@@ -381,10 +381,10 @@ theorem hashProtLoop_cons (e : GoVal × GoVal) (r : GoMap) (found : Bool) :
         cases v <;> simp [hashProtLoop, protEntry, hn, canInt]
       · by_cases h259 : ∃ k, nl = .int k 259
         · obtain ⟨k, rfl⟩ := h259
-          by_cases hc : (canUint v || canTstr v) = true <;> simp [hashProtLoop, protEntry, hn, hc]
+          by_cases hc : (canUint v || canText v) = true <;> simp [hashProtLoop, protEntry, hn, hc]
         · by_cases h260 : ∃ k, nl = .int k 260
           · obtain ⟨k, rfl⟩ := h260
-            by_cases hc : canTstr v = true <;> simp [hashProtLoop, protEntry, hn, hc]
+            by_cases hc : canText v = true <;> simp [hashProtLoop, protEntry, hn, hc]
           · have g3 : ∀ k, nl = GoVal.int k 3 → False := fun k hk => h3 ⟨k, hk⟩
             have g258 : ∀ k, nl = GoVal.int k 258 → False := fun k hk => h258 ⟨k, hk⟩
             have g259 : ∀ k, nl = GoVal.int k 259 → False := fun k hk => h259 ⟨k, hk⟩
@@ -459,7 +459,7 @@ theorem hashUnprotOK_iff : ∀ (g : GoMap), hashUnprotOK g = true ↔ ∀ e ∈ 
 /-- `protEntry` only looks at the normalised label and at the KIND of the value -/
 theorem protEntry_congr {e e' : GoVal × GoVal} (hl : normalizeLabel e'.1 = normalizeLabel e.1)
     (h1 : (∃ a, e.2 = .alg a) ∨ canInt e.2 = true → (∃ a, e'.2 = .alg a) ∨ canInt e'.2 = true)
-    (h2 : canUint e.2 = true → canUint e'.2 = true) (h3 : canTstr e.2 = true → canTstr e'.2 = true)
+    (h2 : canUint e.2 = true → canUint e'.2 = true) (h3 : canText e.2 = true → canText e'.2 = true)
     {b : Bool} (h : protEntry e = some b) : protEntry e' = some b := by
   obtain ⟨l, v⟩ := e
   obtain ⟨l', v'⟩ := e'
@@ -486,7 +486,7 @@ theorem protEntry_congr {e e' : GoVal × GoVal} (hl : normalizeLabel e'.1 = norm
           split at h
           · rename_i hc
             cases h
-            have : (canUint v' || canTstr v') = true := by
+            have : (canUint v' || canText v') = true := by
               simp only [Bool.or_eq_true] at hc ⊢
               rcases hc with hc | hc
               · exact .inl (h2 hc)
@@ -509,8 +509,8 @@ theorem protEntry_congr {e e' : GoVal × GoVal} (hl : normalizeLabel e'.1 = norm
 theorem kind_normVal {v : GoVal} (hv : FlatVal v) (hu : UintOK v) :
     ((∃ a, v = .alg a) ∨ canInt v = true → canInt (normVal v) = true) ∧
     (canUint v = true → canUint (normVal v) = true) ∧
-    (canTstr v = true → canTstr (normVal v) = true) := by
-  cases v <;> simp only [FlatVal] at hv <;> simp [normVal, canInt, canUint, canTstr]
+    (canText v = true → canText (normVal v) = true) := by
+  cases v <;> simp only [FlatVal] at hv <;> simp [normVal, canInt, canUint, canText]
   case int k n =>
     simp only [UintOK] at hu
     cases hs : k.signed <;> simp_all [IntKind.signed]
@@ -949,7 +949,8 @@ theorem exbig_decP : decProtected exPbig = .ok [(lbl 1, .alg 0)] := by
     maxNested, maxElems, labelsOK, maxInt64, GoVal.keyEq, decodePairs, decodeAny, keyHashable,
     validateHeaderParameters, validateLoop, normalizeLabel, wrap64, checkParam, castAlg, algorithmOf,
     lookupLabel, GoMap.lookup, lbl, GoMap.set, GoMap.has, bind, Out.bind, canInt, canTstr,
-    IntKind.signed]
+    IntKind.signed, Wire.stripSelfDescribed,
+    (by decide : headerLabelsUntagged [0xa1, 0x01, 0x1b, 0, 0, 0, 0, 0, 0, 0, 0] = true)]
 
 
 theorem exbig_sign : (Sign1.sign exN none exSbig).out = .ok () ∧
@@ -1011,7 +1012,8 @@ theorem flat_needs_utf8 :
       headBytes, sortPairs, concatPairs]
   · simp [decProtectedContent, parseTop, parseItem, parsePairs, fuelFor, parseHead,
       maxNested, maxElems, labelsOK, maxInt64, GoVal.keyEq, decodePairs, decodeAny, keyHashable,
-      utf8Valid, bind, Out.bind]
+      utf8Valid, bind, Out.bind, Wire.stripSelfDescribed,
+      (by decide : headerLabelsUntagged [0xa1, 0x19, 0x01, 0x04, 0x61, 0xff] = true)]
 
 end C01
 
